@@ -19,6 +19,9 @@ RULE = ("0..3*dw+1 events, dw in {3,8,16}, alignment 0-3 (thorough adds dw in {1
         "write-one-to-clear) with sources toggling every cycle and triggers forced into the very cycle the clear takes "
         "effect, 4-5 the same with aborts, interleaved accesses to the other register, simultaneous read+write and "
         "unmapped addresses, 6 every input bit random each cycle, 7 constructor corner/refusal cases with a short trace. "
+        "~30% of the non-constructor cases get 1-3 mid-run synchronous resets (between the chunks of a write, in the cycle "
+        "of / after a last chunk, in a first-chunk read cycle, source lines held high through it): afterwards nothing is "
+        "enabled or pending, edge detectors restart from low, open transactions are void. "
         "Non-trivial: >= 1 source, >= 1 completed enable write later read back, >= 1 completed clear whose written ones "
         "hit a pending bit, >= 1 trigger landing in the cycle of a clear of the same bit, src.i seen low and high.")
 MODES = ["level", "rise", "fall"]
@@ -208,7 +211,46 @@ def gen_case(seed, tier, idx):
         cfg = gen_cfg(rnd, kind, tier)
         T = 300 if tier == "quick" else rnd.choice([300, 600])
         stim = gen_stim(rnd, cfg, T, kind)
-    return {"engine": "csrevent", "kind": kind, "cfg": cfg, "stim": stim}
+    case = {"engine": "csrevent", "kind": kind, "cfg": cfg, "stim": stim}
+    if kind != "ctor" and len(stim) > 20 and rnd.random() < 0.3:
+        case["resets"] = gen_resets(rnd, cfg, stim)
+    return case
+
+
+def gen_resets(rnd, cfg, stim):
+    """1-3 mid-run synchronous resets (the monitor always has sync logic: the multiplexer's shadow/strobe registers
+    exist even for 0 events), aimed at the cycles where the design holds something a reset must wipe: between the
+    chunks of a register write (write shadow loaded), in the very cycle of the last chunk (the registered element
+    w_stb would be set by that edge), in the cycle after it (enable latch / clear take effect on the same edge as the
+    reset), in the cycle of a first-chunk read (read shadow + r_en), or anywhere.  With probability 0.7 all source
+    lines are held high through the reset cycle and mostly high after it: edge detectors must restart from 'low'."""
+    n = len(cfg["modes"])
+    size, _, _ = planned(cfg)
+    T = len(stim)
+    lo, hi = 3, T - 4
+    cand = {"mid": [], "last": [], "after": [], "read": []}
+    for t in range(lo, hi + 1):
+        sel, off, rs, ws, wd, src = stim[t]
+        if sel in (EN, PE):
+            if ws and off < size - 1:
+                cand["mid"].append(t)
+            if ws and off == size - 1:
+                cand["last"].append(t)
+                if t + 1 <= hi:
+                    cand["after"].append(t + 1)
+            if rs and off == 0:
+                cand["read"].append(t)
+    out = set()
+    for _ in range(rnd.choice([1, 1, 2, 3])):
+        what = rnd.choice(["mid", "last", "after", "after", "read", "any"])
+        pool = cand.get(what) or list(range(lo, hi + 1))
+        out.add(rnd.choice(pool))
+    out = sorted(out)
+    for r in out:
+        if rnd.random() < 0.7:
+            stim[r][5] = [1] * n
+            stim[r + 1][5] = [rnd.choice([0, 1, 1]) for _ in range(n)]
+    return out
 
 
 # ------------------------------------------------------------------------------------------------
@@ -328,6 +370,44 @@ def to_model(case):
     return [cfg["modes"], pyenc(cfg["dw"]), pyenc(cfg["al"]), cfg["trigger"], att, resolved(case)]
 
 
+def _segments(case):
+    """[(first, last)] cycle ranges; a segment ends with the cycle in which the reset is asserted"""
+    T = len(case["stim"])
+    rs = sorted(set(r for r in case.get("resets", []) if 0 <= r < T - 1))
+    out, a = [], 0
+    for r in rs:
+        out.append((a, r)); a = r + 1
+    out.append((a, T - 1))
+    return out
+
+
+def reset_cycles(case):
+    return [b for (a, b) in _segments(case)[:-1]] if case["stim"] else []
+
+
+def model_cases(case):
+    """A mid-run synchronous reset starts the model again from its initial state: one model run per segment (same
+    constructor arguments and attachment, the concrete stimulus of that segment)."""
+    full = to_model(case)
+    if not case["stim"] or not reset_cycles(case):
+        return [full]
+    return [full[:5] + [full[5][a:b + 1]] for (a, b) in _segments(case)]
+
+
+def model_join(case, results):
+    """Constructor / attachment codes, addr_width, trigger and both layouts come from the first segment (they do not
+    depend on the stimulus); the per-cycle rows are concatenated."""
+    first = results[0]
+    if len(results) == 1 or not first or not isinstance(first[0], int) or first[0] < 0 or len(first) != 5:
+        return first
+    rows = []
+    for r in results:
+        if not isinstance(r, list) or len(r) != 5 or r[:4] != first[:4]:
+            return [-99, first[:4], r[:4] if isinstance(r, list) else r]
+        rows += r[4]
+    return first[:4] + [rows]
+
+
 def from_model(res):
     return res
 
@@ -343,13 +423,12 @@ def run_impl(case):
     ins = [bus.addr, bus.r_stb, bus.w_stb, bus.w_data] + [s.i for s in srcs]
     outs = [bus.r_data, b["mon"].src.i] + [s.trg for s in srcs]
     stim = [r[:4] + r[4] for r in rows]
-    from amaranth.hdl import Fragment
     from amaranth.lib.wiring import ConnectionError as WiringConnectionError
     try:
-        frag = Fragment.get(b["dut"], None)
+        # elaborated once, inside simulate (wrapped in a ResetInserter when the case has mid-run resets)
+        tr = S.simulate(b["dut"], ins, outs, stim, reset_at=reset_cycles(case))
     except WiringConnectionError:
         return [-6, 0]                      # wiring.connect(initiator interface, mon.bus) refused
-    tr = S.simulate(b["dut"], ins, outs, stim, frag=frag)
     obs = [[r[0], r[1], r[2:]] for r in tr]
     return [b["aw"], b["trigger"], b["inner"], b["top"], obs, rows, b["top_aw"]]
 
@@ -374,7 +453,8 @@ def analyse(case, obs):
     out = []
     st = {"enable_writes": 0, "enable_readbacks": 0, "pending_reads": 0, "clears": 0, "clears_hitting_pending": 0,
           "trigger_in_clear_cycle": 0, "irq_low": 0, "irq_high": 0, "read_checks": 0, "cycles": 0,
-          "offprotocol_writes": 0}
+          "offprotocol_writes": 0, "resets": 0, "resets_irq_high": 0, "resets_write_in_flight": 0,
+          "resets_lines_high": 0}
     if obs and obs[0] < 0:
         if obs[0] == -2 and valid(cfg):
             out.append(("C14", "constructor", f"EventMonitor refused {len(cfg['modes'])} events, data_width={cfg['dw']}, "
@@ -421,9 +501,12 @@ def analyse(case, obs):
     effect = {}                            # cycle -> (reg, value or None)
     expect = None                          # read data expected in this cycle
     en_written = False
+    resets = set(reset_cycles(case))
     for t in range(T):
         addr, rs, ws, wd, src = stim[t]
         rdata, irq, trgs = rows[t]
+        if t and (t - 1) in resets and irq:
+            out.append(("C14", t, "src.i=1 in the first cycle after a reset (nothing is enabled, nothing is pending)"))
         # -- src.i follows enable & pending
         st["irq_high" if irq else "irq_low"] += 1
         if en_known:
@@ -486,6 +569,24 @@ def analyse(case, obs):
                     if not ok:
                         st["offprotocol_writes"] += 1
         # -- clock edge at the end of cycle t
+        if t in resets:
+            # synchronous reset asserted in this cycle (its outputs, checked above, are still those of the old
+            # state): the edge puts the monitor back into its power-on state - nothing enabled, nothing pending,
+            # every line's previous level counts as low, no transaction open (a write whose last chunk was just
+            # written, or whose effect was due on this edge, does not happen; a read in flight returns nothing the
+            # property speaks about) - and the property's clauses apply again from there.
+            st["resets"] += 1
+            st["resets_irq_high"] += irq
+            st["resets_write_in_flight"] += int(t in effect or (t + 1) in effect)
+            st["resets_lines_high"] += int(n > 0 and all(src))
+            en = 0; en_known = True; en_written = False
+            pv = 0; pk = full
+            prev = [0] * n
+            last_first = {}; snap = {}; last_write = {}
+            last_wr_reg = {EN: -1, PE: -1}
+            effect = {}
+            expect = None
+            continue
         ef = effect.pop(t, None)
         clear = 0
         if ef is not None:
@@ -538,7 +639,7 @@ def describe(case):
     c = case["cfg"]
     return {"engine": "csrevent", "kind": case["kind"], "events": len(c["modes"]), "modes": c["modes"][:8], "dw": c["dw"],
             "alignment": c["al"], "trigger": c["trigger"], "attach": c["attach"], "decoder": c["dec"],
-            "cycles": len(case["stim"]), "first_rows": case["stim"][:3]}
+            "cycles": len(case["stim"]), "resets": case.get("resets", []), "first_rows": case["stim"][:3]}
 
 
 def shrink(case, fails):
